@@ -45,6 +45,9 @@ func (eq equator) equalMessage(mx, my pref.Message) bool {
 	nx := 0
 	equal := true
 	mx.Range(func(fd pref.FieldDescriptor, vx pref.Value) bool {
+		if ignoredField(fd) {
+			return true
+		}
 		nx++
 		vy := my.Get(fd)
 		equal = my.Has(fd) && eq.equalField(fd, vx, vy)
@@ -55,6 +58,9 @@ func (eq equator) equalMessage(mx, my pref.Message) bool {
 	}
 	ny := 0
 	my.Range(func(fd pref.FieldDescriptor, vx pref.Value) bool {
+		if ignoredField(fd) {
+			return true
+		}
 		ny++
 		return true
 	})
@@ -65,12 +71,15 @@ func (eq equator) equalMessage(mx, my pref.Message) bool {
 	return eq.equalUnknown(mx.GetUnknown(), my.GetUnknown())
 }
 
+// ignoredField reports whether fd takes no part in the comparison: neither its value nor whether it is set.
+// This is the case we've added to proto.Equal, ignore PullResponse.Change.change_time
+func ignoredField(fd pref.FieldDescriptor) bool {
+	return fd.Name() == "change_time" && fd.ContainingMessage().Name() == "Change"
+}
+
 // equalField compares two fields.
 func (eq equator) equalField(fd pref.FieldDescriptor, x, y pref.Value) bool {
 	switch {
-	// This is the case we've added, ignore PullResponse.Change.change_time
-	case fd.Name() == "change_time" && fd.ContainingMessage().Name() == "Change":
-		return true
 	case fd.IsList():
 		return eq.equalList(fd, x.List(), y.List())
 	case fd.IsMap():
